@@ -380,6 +380,41 @@ fn amp(p: &str, i: usize, n: usize, rng: &mut Rng) -> f64 {
     }
 }
 
+/// clone() / clone_from() of an envelope detector mid-stream (parameters changed on the way)
+fn clone_conformance(rep: &mut Report, seed: u64) {
+    let mut rng = Rng::derive(seed, &[192]);
+    let mut n = 0;
+    let frame = |i: u64| -> [f32; 2] {
+        let x = ((i * 37 % 101) as f32 - 50.0) / 64.0;
+        [x, -0.5 * x]
+    };
+    {
+        let mk = |v: u64| Detector::new(dasp_envelope::detect::Peak::full_wave(), 3.0 + v as f32, 5.0);
+        let step = |d: &mut Detector<[f32; 2], dasp_envelope::detect::Peak<peak::FullWave>>, i: u64| {
+            if i % 13 == 12 {
+                d.set_attack_frames(1.0 + (i % 5) as f32);
+                d.set_release_frames(2.0 + (i % 3) as f32);
+            }
+            let o = d.next(frame(i));
+            [o[0].to_bits(), o[1].to_bits()]
+        };
+        n += checks::cloneconf::check_clone_state("detector_peak", "kind=clone;det=peak", mk, step, rep, &mut rng, 24, 30, 12);
+    }
+    {
+        let mk = |v: u64| Detector::new(Rms::<[f32; 2], Vec<[f32; 2]>>::new(Fixed::from_raw_parts((v as usize + 1) % 4, vec![[0.0f32; 2]; 4])), 2.0 + v as f32, 7.0);
+        let step = |d: &mut Detector<[f32; 2], Rms<[f32; 2], Vec<[f32; 2]>>>, i: u64| {
+            if i % 11 == 10 {
+                d.set_release_frames(1.0 + (i % 4) as f32);
+            }
+            let o = d.next(frame(i));
+            [o[0].to_bits(), o[1].to_bits()]
+        };
+        n += checks::cloneconf::check_clone_state("detector_rms", "kind=clone;det=rms", mk, step, rep, &mut rng, 24, 30, 12);
+    }
+    rep.eval(n);
+    rep.hit_n("clone_conformance_scripts", n);
+}
+
 fn sched_for(rng: &mut Rng, n: usize, which: usize) -> Sched {
     // non-negative times, including the IEEE corner cases a `== 0.0` / `>= 0.0` guard meets:
     // negative zero (equal to zero, satisfies >= 0), subnormals, the smallest normal, huge values
@@ -509,6 +544,8 @@ fn main() {
         flush(&mut rep);
         checks::finish(&cli, rep, t0);
     }
+    rep.oblige("clone_conformance_scripts", 1);
+    clone_conformance(&mut rep, cli.seed);
     for o in ["attack_steps", "release_steps", "zero_time_steps", "negative_zero_time_steps", "one_ulp_parameter_glides", "mid_stream_parameter_changes"] {
         rep.oblige(o, 1);
     }
